@@ -171,6 +171,20 @@ def print_min(t):
     return "%s %s %s" % (_wrap(need_l(op, l), print_min(l)), op, _wrap(need_r(op, r), print_min(r)))
 
 
+def print_min_breaks(t, after=False, top=True):
+    """print_min with a line break before (or, with after=True, after) every binary operator that is outside all
+    brackets -- a layout the language may or may not accept as one expression; when it does, the grouping must be
+    the documented one"""
+    k = t[0]
+    if k != "bin" or not top:
+        return print_min(t)
+    _, op, l, r = t
+    ls = print_min(l) if need_l(op, l) else print_min_breaks(l, after, True)
+    rs = print_min(r) if need_r(op, r) else print_min_breaks(r, after, True)
+    ls, rs = _wrap(need_l(op, l), ls), _wrap(need_r(op, r), rs)
+    return ("%s %s\n %s" if after else "%s\n %s %s") % ((ls, op, rs))
+
+
 def _is_op(t):
     return t[0] in ("bin", "un")
 
